@@ -155,29 +155,30 @@ Definition deser_rows_full_cached (ft : features) (cached : option bytes * N * l
    result metadata as the cache.  None: the pair is not of that shape (the runner then reports the
    same). *)
 Definition decode_pair (ft : features) (stream : bytes)
-  : option (result (stage * ferr) (rows_result * N)) :=
+  : option (result (stage * ferr) (rows_result * N)) * cost :=
   match read_frame stream with
-  | (Ok ((h1, body1), rest), _) =>
-    if negb (h_flags h1 =? 0) || negb (h_opcode h1 =? 8) then None
-    else match run (deser_response custom ft true 8) body1 with
-         | Ok (RResult (ResPrepared p), _) =>
+  | (Ok ((h1, body1), rest), c1) =>
+    if negb (h_flags h1 =? 0) || negb (h_opcode h1 =? 8) then (None, c1)
+    else match deser_response custom ft true 8 body1 with
+         | (Ok (RResult (ResPrepared p), _), c2) =>
            match read_frame rest with
-           | (Ok ((h2, body2), _), _) =>
-             if negb (h_flags h2 =? 0) || negb (h_opcode h2 =? 8) then None
+           | (Ok ((h2, body2), _), c3) =>
+             let c123 := cadd c1 (cadd c2 c3) in
+             if negb (h_flags h2 =? 0) || negb (h_opcode h2 =? 8) then (None, c123)
              else match run read_int body2 with
-                  | Err e => Some (Err (StBody, e))
+                  | Err e => (Some (Err (StBody, e)), c123)
                   | Ok (kind, b2) =>
                     if (kind =? 2)%Z then
-                      match run (deser_rows_full_cached ft (p_result_metadata_id p, pr_col_count p, pr_cols p)) b2 with
-                      | Ok (r, _) => Some (Ok r)
-                      | Err e => Some (Err (StBody, e))
+                      match deser_rows_full_cached ft (p_result_metadata_id p, pr_col_count p, pr_cols p) b2 with
+                      | (Ok (r, _), c4) => (Some (Ok r), cadd c123 c4)
+                      | (Err e, c4) => (Some (Err (StBody, e)), cadd c123 c4)
                       end
-                    else None
+                    else (None, c123)
                   end
-           | (Err e, _) => Some (Err (StHeader, e))
+           | (Err e, c3) => (Some (Err (StHeader, e)), cadd c1 (cadd c2 c3))
            end
-         | _ => None
+         | (_, c2) => (None, cadd c1 c2)
          end
-  | _ => None
+  | (_, c1) => (None, c1)
   end.
 End Cached.
